@@ -1922,6 +1922,15 @@ def check_C06(tier, seed):
     ]
     big_leg(o, "int-lattice", size(tier, "quick", "full"), size(tier, 3200, 200000), seed)
     sem_leg(o, "ops-all-types", [], 16, seed, shards=16, gen_cmd="gen-ops-sharded", sens=10)
+    # the float specification against an independent implementation of IEEE-754 (CPython's floats, when the module was
+    # generated: tools/mk_float_selfcheck.py): it accepts every true result and rejects both neighbouring floats; a
+    # disagreement here is an error of the specification, not a verdict about the code
+    t0 = time.time()
+    rs = core.tlc_or_die("MC_FloatArith.tla", "MC_FloatArith.cfg", workdir_=core.workdir("C06_float-selfcheck"), timeout=600)
+    msc = re.search(r'FLOAT-SELFCHECK", (\d+), \{(.*?)\}', rs.raw)
+    if not msc or msc.group(2).strip():
+        raise ToolError("NlFloatArith disagrees with the recorded IEEE facts: " + (msc.group(0) if msc else rs.raw[-500:]))
+    o.legs.append({"leg": "float-spec-selfcheck", "facts": int(msc.group(1)), "failing": 0, "wall_s": round(time.time() - t0, 1)})
     float_leg(o, "float-lattice", size(tier, 10, 120), seed)
     float_leg(o, "float-rounding", 0, seed, family="rounding", rounding=size(tier, 600, 12000))
     o.extra["exhaustive"] = True
